@@ -232,7 +232,7 @@ class Policy(object):
             ('1040', 'form_4797'): False,
             ('1040_sa', 'itemize_though_less'): self.draw(st.booleans()),
             ('1040_sa', 'mortgage_insurance_premiums_special'): False,
-            ('1040_sa', 'filling_8283'): True,
+            ('1040_sa', 'filling_8283'): self.draw(st.integers(0, 3)) != 0,
             ('1040_s1', 'state_local_income_tax_adjust'): False,
             ('1040_s1', 'need_other_income'): self.draw(st.booleans()),
             ('1040_s1', 'need_other_adjustments'): self.draw(st.booleans()),
@@ -301,7 +301,7 @@ class Policy(object):
         if p.get('nc_withholding') and 'NC' in members and ('state' in base or base.startswith(('box_15', 'box_14', 'box_10a'))):
             return 'NC'
         if base.startswith('box_12') and base.endswith('_code'):
-            return '' if d(st.integers(0, 3)) else d(st.sampled_from(['D', 'DD', 'AA', 'E', 'C']))
+            return '' if d(st.integers(0, 3)) else d(st.sampled_from(['D', 'DD', 'AA', 'E', 'C', 'N']))
         if inp.allow_empty and d(st.booleans()):
             return ''
         if 'NC' in members:
@@ -419,7 +419,8 @@ class Policy(object):
             if base == 'box_6':
                 return self.amount(0, 2000)
             if base == 'box_4':
-                return self.amount(0, 300)
+                # refund of overpaid interest: usually small, sometimes larger than this year's interest
+                return self.amount(0, 300) if d(st.integers(0, 7)) else self.amount(300, 25000)
             if base == 'box_5':
                 return self.amount(0, 1500)
             return 0.0
@@ -516,13 +517,13 @@ class Policy(object):
         if base in ('apartment_no',):
             return d(st.sampled_from(['', '4B', '12']))
         if 'middle_initial' in base:
-            return d(st.sampled_from(['', 'Q', 'x']))
+            return d(st.sampled_from(['', 'Q', 'x', 'N', 'e']))
         if 'foreign' in base:
             return ''
         if base == 'box_20':
             return ''
         return d(st.sampled_from(['Jane', 'Doe', 'Public', 'Acme Corp', '12 Main St', 'engineer', 'Child One',
-                                  'son', 'Mary Ann', "O'Neil", 'First Bank', 'x', 'Unit #12', '5 Elm St ;rear', '#7']))
+                                  'son', 'Mary Ann', "O'Neil", 'First Bank', 'x', 'Unit #12', '5 Elm St ;rear', '#7', 'No', 'None', 'on', 'Smith-Jones']))
 
 
 # ---------------------------------------------------------------------------
